@@ -100,7 +100,9 @@ func (r *RNN) Apply(inputs []tensor.Tensor) ([]tensor.Tensor, error) {
 	// Reshape the hidden tensor without the bidirectional dimension, as
 	// we do not support bidirectional RNN yet. This is the dimension at
 	// index 0.
-	if err = Ht.Reshape(Ht.Shape().Clone()[1:]...); err != nil {
+	// The initial state is an input tensor (or a weight), so it may not be reshaped in place.
+	Ht, err = cloneWithoutFirstDim(Ht)
+	if err != nil {
 		return nil, err
 	}
 
@@ -246,4 +248,19 @@ func (r *RNN) getBiases(B tensor.Tensor) (Wbi, Rbi tensor.Tensor, err error) {
 	}
 
 	return b[0], b[1], nil
+}
+
+// cloneWithoutFirstDim returns a copy of the given tensor without its first dimension, which
+// must be of size 1. This is used to drop the 'num_directions' dimension of initial states.
+func cloneWithoutFirstDim(t tensor.Tensor) (tensor.Tensor, error) {
+	clone, ok := t.Clone().(tensor.Tensor)
+	if !ok {
+		return nil, ops.ErrTypeAssert("tensor.Tensor", t.Clone())
+	}
+
+	if err := clone.Reshape(clone.Shape().Clone()[1:]...); err != nil {
+		return nil, err
+	}
+
+	return clone, nil
 }
